@@ -2,6 +2,10 @@
 package tcp
 
 import (
+	"net"
+	"time"
+
+	"github.com/samaritan-proxy/samaritan/host"
 	netutil "github.com/samaritan-proxy/samaritan/proc/internal/net"
 
 	nd "github.com/samaritan-proxy/samaritan/vfnd"
@@ -71,4 +75,57 @@ func VfC05_BufferReuse() {
 	// after the relays, two users asking for a buffer at the same time never get the same one
 	x, y := getBuffer(), getBuffer()
 	nd.Assert(&x[0] != &y[0], "two simultaneous users never get the same pooled buffer")
+}
+
+// VfC05_BothDirections: HandleConn relays both directions; when one side finishes sending, the
+// other direction keeps flowing until it is finished too (no full close before that); when the
+// chosen host is removed from the service both connections are closed; HandleConn returns only
+// after both directions ended.
+func VfC05_BothDirections() {
+	nd.ConcreteClock(true)
+	bufSize = 4
+	var log []string
+	h := host.New("m1:1")
+	p := vfNewTCPProc(0, h)
+	client := vfNewIdleConn("client", &log)
+	backend := vfNewIdleConn("backend", &log)
+	c2b, b2c := nd.Bytes("c2b", 3), nd.Bytes("b2c", 5)
+	client.reads, backend.reads = [][]byte{c2b}, [][]byte{b2c}
+	oldDial := dialTimeout
+	defer func() { dialTimeout = oldDial }()
+	dialTimeout = func(network, address string, timeout time.Duration) (net.Conn, error) { return backend, nil }
+	returned := false
+	go func() { p.HandleConn(client); returned = true }()
+	nd.PanicLabel("handle-conn")
+	nd.Quiesce()
+	nd.Assert(!returned, "the relay stays up while both sides keep their connection open")
+	nd.Assert(vfBytesEq(backend.written, c2b) && vfBytesEq(client.written, b2c), "both directions are relayed while the connection is up")
+	nd.Assert(vfCount(log, "C:client") == 0 && vfCount(log, "C:backend") == 0, "no connection is closed while both sides are still sending")
+	switch nd.Concrete(nd.IntRange("event", 0, 2)) {
+	case 0: // the client finishes sending first; the backend still has data
+		close(client.release)
+		nd.Quiesce()
+		nd.Assert(!returned, "one finished direction does not end the relay")
+		nd.Assert(vfCount(log, "CW:backend") == 1, "the backend sees end-of-stream from the client (half-close)")
+		nd.Assert(vfCount(log, "C:client") == 0 && vfCount(log, "C:backend") == 0, "the opposite direction is left open")
+		backend.reads = append(backend.reads, []byte("tail"))
+		backend.pos = len(backend.reads) - 1
+		close(backend.release)
+		nd.Quiesce()
+		nd.Cover("half-close-then-finish")
+	case 1: // the backend finishes first
+		close(backend.release)
+		nd.Quiesce()
+		nd.Assert(!returned && vfCount(log, "CW:client") == 1, "the client sees end-of-stream from the backend, the relay continues")
+		close(client.release)
+		nd.Quiesce()
+	case 2: // the host is removed from the service
+		p.OnSvcHostRemove([]*host.Host{host.New("m1:1")})
+		nd.Quiesce()
+		nd.Assert(backend.closed && client.closed, "established connections to a removed host are closed")
+		nd.Cover("closed-on-removal")
+	}
+	nd.Assert(returned, "HandleConn returns once both directions have ended")
+	nd.Assert(backend.closed, "the backend connection is closed at the end")
+	nd.Assert(nd.AllFinished(), "no goroutine of the relay remains")
 }
